@@ -610,6 +610,7 @@ pub fn show_op(op: &Op) -> String {
         Op::Parse { prog } => format!("parse_expression({:?})", prog.text()),
         Op::ParseExec { prog, ctx, times } => format!("parse_expression({:?}).exec({}) x{}", prog.text(), show_ctx(ctx), times),
         Op::ExecShared { ast, ctx } => format!("shared_ast[{}].exec({})", ast, show_ctx(ctx)),
+        Op::Pause => "pause(the handler is slow: other threads run meanwhile)".to_string(),
         Op::OnThreadExit { ops, late } => format!(
             "on_new_thread_and_again_from_the_destructor_of_its_thread_local_first_touched_{}_the_body[{}]",
             if *late { "after" } else { "before" },
